@@ -324,6 +324,20 @@ def run(ctx):
             nagg += 1
             ok = not isinstance(got, Exception) and [fmt_packet(p) for p in got] == singles
             ctx.case(key=("aggregate", hash(data)), nontrivial=True, tag="reverse-aggregated:" + cfgk[0] + (":accepted" if ok else ":REJECTED"))
+            if ok and cfgk[0] == "liteemit":
+                # a stream transport delivers the reference's bytes in whatever pieces it likes: the same packets at every cut in two
+                cuts = range(1, len(data)) if len(data) <= 400 else sorted(ctx.rng.sample(range(1, len(data)), 400))
+                for cut in cuts:
+                    d2 = prudp.PRUDPLiteMessage(make_settings(transport=2, key=cfgk[-1]))
+                    g2 = safe(lambda: d2.decode(data[:cut]) + d2.decode(data[cut:]))
+                    ok2 = not isinstance(g2, Exception) and [fmt_packet(p) for p in g2] == singles and not d2.buffer
+                    ctx.case(key=("segmented", hash(data), cut), nontrivial=True, tag="reverse-segmented:liteemit" + (":accepted" if ok2 else ":REJECTED"))
+                    if not ok2:
+                        ctx.violation("reference-stream-rejected:segmented:liteemit",
+                                      "%d lite packets produced by the protocol reference (%d bytes), delivered by the stream in two reads cut at byte %d, are not decoded by the real code as they are one by one (%s)"
+                                      % (k, len(data), cut, repr(g2)[:120] if isinstance(g2, Exception) else "%d packets, fields or residual buffer differ" % len(g2)),
+                                      {"config": list(cfgk), "datagrams": [d for _, d, _ in pick], "cut": cut, "real": res_dec_safe(g2)})
+                        break
             if not ok:
                 ctx.violation("reference-datagram-rejected:aggregated:" + cfgk[0],
                               "%d packets produced by the protocol reference, aggregated in one datagram, are not decoded by the real code as they are one by one (%s)"
